@@ -35,6 +35,8 @@ theorem history_persistent {α : Type} (ps : List (H.Prog α)) (s : H.Store)
 -- them makes a `gen_*_canon` theorem of this property's modules fail, renaming their locals or reformatting them changes nothing:
 -- `index.Copy`, `QFrame.Slice`, `QFrame.Select`, `QFrame.setColumn`: regenerated as `Gen.indexAst` / `Gen.projectAst` (pxast.go) and `Gen.guardAst` / `Gen.guardAst2` (gast.go),
 -- `C08ProjectGen.gen_project_canon` + `gen_project_semantics` / `gen_project_persistent`, `C08Guards.gen_guards_canon` + `gen_guards_semantics`.
-theorem tie : Tie.sameAll ["qframe.Sort", "qframe.Aggregate", "qframe.QFrame.FilteredApply", "ecolumn.toUpper", "scolumn.toUpper"] = true := by decide
+-- FilteredApply and the two built-in toUpper functions are regenerated (C06FApplyGen.gen_supper_semantics / gen_eupper_semantics: no element of the source's arrays is written).
+-- Aggregate is regenerated: loops in `Gen.aggregateAst` (C04LoopsGen), glue in `Gen.aggregateGlueAst` (C04GlueGen), guards in C10Guards.
+theorem tie : Tie.sameAll ["qframe.Sort"] = true := by decide
 
 end QF.Props.C01
